@@ -388,6 +388,22 @@ pub fn challenge_aware<S: Sch>(rec: &mut Rec, squeezes_per_poly: usize, leading_
                     compare::<S>(rec, &id, "challenge-aware-cancelling", &keys, &comms, &qs, &ev, &list, &format!("{} labels: delta(q{}) = xi_{}, delta(q{}) = -xi_{}", groups.len(), i, j, j, i), &[0, 1, 2], &b.evals);
                 }
             }
+            // three labels: challenge-weighted defects (d, -2d, d) in every assignment to the positions - their sum AND
+            // their first moment over the label index vanish, which cancels under batching weights that are merely
+            // pairwise distinct but in arithmetic progression (and under equal weights)
+            if groups.len() == 3 {
+                let d = rho::<S::F>(rec.seed, 3);
+                let two = S::F::from(2u64);
+                for (pat, e) in [("(1,-2,1)", [S::F::one(), -two, S::F::one()]), ("(-2,1,1)", [-two, S::F::one(), S::F::one()]), ("(1,1,-2)", [S::F::one(), S::F::one(), -two])] {
+                    let mut ev = b.evals.clone();
+                    for k in 0..3usize {
+                        let others: S::F = (0..3).filter(|m| *m != k).map(|m| xi[m]).product();
+                        *ev.get_mut(&(format!("q{}", k), labels[groups[k]].1.clone())).unwrap() += d * e[k] * others;
+                    }
+                    rec.count_points(1);
+                    compare::<S>(rec, &id, "challenge-aware-moment-cancelling", &keys, &comms, &qs, &ev, &list, &format!("3 labels: challenge-weighted defects {} * d", pat), &[0, 1, 2], &b.evals);
+                }
+            }
         }
     }
 }
